@@ -40,7 +40,8 @@ RULE = ("one case = one generated Modelica model (parameters valued/free/depende
         "distinct = distinct (text, options, mode)")
 TRUSTED = ["pickle and CasADi (de)serialisation of Function objects; gcc + ca.external for codegen (exercised, not modelled)",
            "CasADi's depends_on/is_constant: an attribute classified MX_INDEPENDENT has one value for all parameter vectors, NaN included (exercised at the evaluation points)"]
-ASSUMPTIONS = ["variable names are unique across the metadata categories (load_model's name dictionary); generated and repository models satisfy it, checked per case",
+ASSUMPTIONS = ["main stream: parameters are scalars (a vector parameter without expand_vectors makes load_model raise: open finding C19-F2, separate stream)",
+               "variable names are unique across the metadata categories (load_model's name dictionary); generated and repository models satisfy it, checked per case",
                "attributes of variables depend on parameters only (pymoca cannot build the metadata function otherwise — such models fail to compile fresh as well)",
                "numerical agreement is checked at exact evaluation points (+, -, * on dyadic rationals), not symbolically"]
 
@@ -309,6 +310,15 @@ def gen_case(rng, mode="cache"):
     return c
 
 
+def gen_case_vecparam(rng):
+    """Separate stream (finding C19-F2): a vector parameter; with and without expand_vectors."""
+    gm = G.gen_model(rng, want=["vector-parameter"])
+    o = G.gen_options(rng)
+    o["expand_vectors"] = rng.random() < 0.4
+    return {"name": gm["name"], "text": gm["text"], "features": gm["features"], "opts": o, "mode": "cache",
+            "seed": rng.randrange(1000), "stream": "vector-parameter"}
+
+
 def fixed_cases():
     out = []
     for text, opts in TARGETED:
@@ -333,6 +343,9 @@ def run(ctx):
         check_case(ctx, c["case"] if "case" in c else c, drv)
     for c in fixed_cases():
         check_case(ctx, c, drv)
+    for _ in range(5 if quick else 150):
+        ctx.count("stream:vector-parameter")
+        check_case(ctx, gen_case_vecparam(ctx.rng), drv)
     n_cache, n_codegen = (400, 6) if quick else (4000, 120)
     # codegen cases are spread over the run so that a time-out keeps both kinds
     every = max(1, n_cache // max(1, n_codegen))
